@@ -52,14 +52,15 @@ inductive Stmt
   | seq (a b : Stmt)
   | ite (c : Expr) (a b : Stmt)
   /-- `for (;; step) { pre; if (!c) break; body }` — `pre` holds the side effects of the C
-      condition (e.g. `count--`), `continue` jumps to `step`. `post = true`: do-while
-      (first test skipped). -/
+      condition (e.g. `count--`), `continue` jumps to `step`. -/
   | loop (pre : Stmt) (c : Expr) (body step : Stmt)
   | ret (e : Expr)
   | brk
   | cont
   | call (dst : Option Nat) (f : Nat) (args : List Expr)
-  | ext (f : Nat) (args : List Expr)
+  /-- call of an untranslated routine: no effect on the frame except that `dst` receives the next
+      value of the oracle stream `Env.ora` (results of external routines are PUBLIC by assumption) -/
+  | ext (dst : Option Nat) (f : Nat) (args : List Expr)
 deriving Repr, Inhabited
 
 /-- one translated C function: parameters are variables `0 .. nparams-1`;
@@ -76,7 +77,7 @@ def Fun.L (f : Fun) (x : Nat) : Bool := f.pubv.contains x
 structure Prog where
   funs : List Fun
   /-- external (untranslated) routines that the policy accepts as opaque primitives -/
-  allow : List Nat
+  allowExt : List Nat
 deriving Repr, Inhabited
 
 inductive Obs
@@ -148,6 +149,8 @@ structure Env where
   pub : Store
   st : Nat
   rv : Nat
+  /-- results that the external (untranslated) routines will return, in call order -/
+  ora : List Nat
 
 def Env.setVar (e : Env) (x v : Nat) : Env := { e with vars := wr e.vars x v }
 
@@ -239,15 +242,17 @@ def exec (P : Prog) (strict : Bool) : Nat → Stmt → Env → Env × List Obs
       | none => ({ e with st := 8 }, ra.2)
       | some fn =>
         let r := exec P strict f fn.body
-          { vars := bindArgs 0 ra.1 ∅, sec := e.sec, pub := e.pub, st := 0, rv := 0 }
-        let e' : Env := { e with sec := r.1.sec, pub := r.1.pub,
+          { vars := bindArgs 0 ra.1 ∅, sec := e.sec, pub := e.pub, st := 0, rv := 0, ora := e.ora }
+        let e' : Env := { e with sec := r.1.sec, pub := r.1.pub, ora := r.1.ora,
                                  st := if r.1.st = 8 ∨ r.1.st = 9 then r.1.st else 0 }
         ((match dst with
           | some x => e'.setVar x r.1.rv
           | none => e'), ra.2 ++ r.2)
-  | _ + 1, .ext g args, e =>
+  | _ + 1, .ext dst g args, e =>
       let ra := evalArgs strict e args
-      (e, ra.2 ++ [Obs.ext g])
+      ((match dst with
+        | some x => { e with vars := wr e.vars x (e.ora.headD 0), ora := e.ora.tail }
+        | none => e), ra.2 ++ [Obs.ext g])
 
 /-! ### the checker -/
 
@@ -305,7 +310,7 @@ def ctS (P : Prog) (strict : Bool) (fn : Fun) : Stmt → Bool
         (match dst with
          | none => true
          | some x => !fn.L x || cal.retPub)
-  | .ext g args => P.allow.contains g && ctExt strict fn.L args
+  | .ext _ g args => P.allowExt.contains g && ctExt strict fn.L args
 
 def ctFun (P : Prog) (strict : Bool) (fn : Fun) : Bool := ctS P strict fn fn.body
 
